@@ -84,7 +84,9 @@ def validate_all(chk, traces, focus):
                 else:
                     chk.cov.setdefault("rejections_outside_focus", 0)
                     chk.cov["rejections_outside_focus"] += 1
-            out.append(ok)
+                out.append((False, why, rej))
+            else:
+                out.append((True, set(), ""))
     return out
 
 
